@@ -10,6 +10,7 @@ from ..finite import ConstEval, Undecidable
 from ..program import FuncInfo, norm, head
 from ..report import Finding, RuleResult
 from .shape import canon, count_appends, single_return, INF
+from .astutil import facts_at, inline_helpers as inline_any, local_alias_map, stmt_of
 
 
 def _parents(node):
@@ -47,14 +48,18 @@ def rule_deleg(ctx):
         r.fail(Finding("R-DELEG", "R-DELEG|data.Data.get", f"{g.file}:{g.node.lineno}",
                        "Data.get must delegate every lookup to `data_path.get_data(self, return_paths=return_paths)` so that all entry points agree", []))
     gd = prog.func("datapath.DataPath.get_data")
-    nf = [x for x in _returns(gd) if x.value is not None and isinstance(x.value, ast.IfExp)]
+    # the return taken when the walk selected nothing: `if not <frontier>: return ...`
+    nf = [x for x in _returns(gd) if x.value is not None and isinstance(x._parent, ast.If) and isinstance(x._parent.test, ast.UnaryOp) and isinstance(x._parent.test.op, ast.Not)
+          and isinstance(x._parent.test.operand, ast.Name) and x._parent in gd.node.body]
     inst = {"not-found return": [norm(x.value) for x in nf]}
     r.instances.append(inst)
-    if len(nf) == 1 and norm(nf[0].value) == "None if self.is_concrete else []" and isinstance(nf[0]._parent, ast.If) and norm(nf[0]._parent.test) == "not data":
+    good = {"None if self.is_concrete else []", "[] if not self.is_concrete else None"}
+    bad = {"[] if self.is_concrete else None", "None if not self.is_concrete else []", "None", "[]"}
+    if len(nf) == 1 and norm(nf[0].value) in good:
         r.ok()
-    elif nf:
+    elif len(nf) == 1 and norm(nf[0].value) in bad:
         r.fail(Finding("R-DELEG", "R-DELEG|datapath.DataPath.get_data|not-found", f"{gd.file}:{nf[0].lineno}",
-                       f"when nothing matches, get_data must return None for a concrete path and [] otherwise; found `{norm(nf[0].value)}` under `{head(nf[0]._parent)}`", []))
+                       f"when nothing matches, get_data must return None for a concrete path and [] otherwise; found `{norm(nf[0].value)}`", []))
     else:
         r.undecided.append(inst)
     return r
@@ -63,98 +68,168 @@ def rule_deleg(ctx):
 # ------------------------------------------------------------------------------------------
 # C04 / C05: frontier bookkeeping in DataPath.get_data
 # ------------------------------------------------------------------------------------------
+def _mentions(expr, name, attr):
+    return any(isinstance(n, ast.Attribute) and n.attr == attr and isinstance(n.value, ast.Name) and n.value.id == name for n in ast.walk(expr))
+
+
+def _target_names(t):
+    return [n.id for n in ast.walk(t) if isinstance(n, ast.Name)]
+
+
 def rule_lockstep(ctx):
+    """Value frontier and path frontier of DataPath.get_data advance in lock-step.  Roles
+    (frontiers, next frontiers, filtered object, index variable) are inferred from the data
+    flow, not from variable names; if they cannot be inferred the rule is undecided."""
     prog = ctx.prog
-    r = RuleResult("R-LOCKSTEP", floor=5)
+    r = RuleResult("R-LOCKSTEP", floor=4)
     f = prog.func("datapath.DataPath.get_data")
     where = f"{f.file}:{f.node.lineno}"
-    part_loop = None
-    for st in f.node.body:
-        if isinstance(st, ast.For) and "self.parts" in ast.unparse(st.iter):
-            part_loop = st
+    part_loop = next((st for st in f.node.body if isinstance(st, ast.For) and "self.parts" in ast.unparse(st.iter)), None)
     if part_loop is None:
         raise AnalysisError("get_data: the loop over self.parts not found")
-    # (1) every index into concrete_paths is the enumerate index of a loop over the full frontier `data`
-    subs = [n for n in ast.walk(part_loop) if isinstance(n, ast.Subscript) and isinstance(n.value, ast.Name) and n.value.id == "concrete_paths"]
-    for s in subs:
-        inst = {"site": norm(s)}
+    part_var = _target_names(part_loop.target)[-1]
+    fcalls = [n for n in ast.walk(part_loop) if isinstance(n, ast.Call) and isinstance(n.func, ast.Attribute) and n.func.attr == "filter" and isinstance(n.func.value, ast.Name) and n.func.value.id == part_var]
+    if not fcalls:
+        r.undecided.append({"what": "no `<part>.filter(<node>)` call in the part loop"})
+        r.instances.append({"roles": "not inferable"})
+        return r
+    fcall = fcalls[0]
+    # filtered-object variables: assigned from the filter call, or iterating a list that collects such results
+    Fvars, collectors = set(), set()
+    st = stmt_of(fcall)
+    if isinstance(st, ast.Assign) and isinstance(st.targets[0], ast.Name):
+        Fvars.add(st.targets[0].id)
+    for n in ast.walk(part_loop):
+        if isinstance(n, ast.Call) and isinstance(n.func, ast.Attribute) and n.func.attr == "append" and isinstance(n.func.value, ast.Name) and n.args:
+            a = n.args[0]
+            if a is fcall or (isinstance(a, ast.Name) and a.id in Fvars) or any(x is fcall for x in ast.walk(a)):
+                collectors.add(n.func.value.id)
+    via_collector = {}
+    for n in ast.walk(part_loop):
+        if isinstance(n, ast.For):
+            it = n.iter
+            src = it.args[0] if isinstance(it, ast.Call) and isinstance(it.func, ast.Name) and it.func.id == "enumerate" and it.args else it
+            if isinstance(src, ast.Name) and src.id in collectors:
+                v = _target_names(n.target)[-1]
+                Fvars.add(v)
+                via_collector[v] = (n, src.id)
+    # next frontiers
+    ND, NP = set(), set()
+    upd = []
+    for n in ast.walk(part_loop):
+        tgt, val = None, None
+        if isinstance(n, ast.Call) and isinstance(n.func, ast.Attribute) and n.func.attr in ("extend", "append") and isinstance(n.func.value, ast.Name) and n.args:
+            tgt, val = n.func.value.id, n.args[0]
+        elif isinstance(n, ast.AugAssign) and isinstance(n.target, ast.Name):
+            tgt, val = n.target.id, n.value
+        elif isinstance(n, ast.Assign) and isinstance(n.targets[0], ast.Name) and not (isinstance(n.value, ast.List) and not n.value.elts):
+            tgt, val = n.targets[0].id, n.value
+        if tgt is None or tgt in collectors:
+            continue
+        # value may refer to F.data / F.keys directly or through a loop variable over them
+        ctx_exprs = [val]
+        for p in _parents(n):
+            if isinstance(p, ast.For) and p is not part_loop:
+                ctx_exprs.append(p.iter)
+            if p is part_loop:
+                break
+        for Fv in Fvars:
+            if any(_mentions(e, Fv, "data") for e in ctx_exprs):
+                ND.add(tgt); upd.append(("data", tgt, n, Fv))
+            if any(_mentions(e, Fv, "keys") for e in ctx_exprs):
+                NP.add(tgt); upd.append(("keys", tgt, n, Fv))
+    copies = {}
+    for stt in part_loop.body:
+        if isinstance(stt, ast.Assign) and isinstance(stt.targets[0], ast.Name) and isinstance(stt.value, ast.Name):
+            copies[stt.value.id] = stt.targets[0].id
+    D = next((copies[x] for x in ND if x in copies), None)
+    P = next((copies[x] for x in NP if x in copies), None)
+    roles = {"part": part_var, "filtered object": sorted(Fvars), "next value frontier": sorted(ND), "next path frontier": sorted(NP), "value frontier": D, "path frontier": P}
+    r.instances.append({"roles": roles})
+    if not (ND and NP and D and P and len(ND) == 1 and len(NP) == 1):
+        r.undecided.append({"what": "frontier roles not inferable", "roles": roles})
+        return r
+    nd, np_ = next(iter(ND)), next(iter(NP))
+    r.ok()
+    # (1) parent path looked up by the node's position in the previous value frontier
+    subs = [n for n in ast.walk(part_loop) if isinstance(n, ast.Subscript) and isinstance(n.value, ast.Name) and n.value.id == P and isinstance(n.ctx, ast.Load)]
+    for sb in subs:
+        inst = {"site": norm(sb)}
         r.instances.append(inst)
-        ok = False
-        why = "index is not a loop variable"
-        if isinstance(s.slice, ast.Name):
-            for p in _parents(s):
-                if isinstance(p, ast.For) and isinstance(p.target, ast.Tuple) and isinstance(p.target.elts[0], ast.Name) and p.target.elts[0].id == s.slice.id:
+        ok, why = False, "index is not the enumerate index of a loop"
+        if isinstance(sb.slice, ast.Name):
+            for p in _parents(sb):
+                if isinstance(p, ast.For) and isinstance(p.target, ast.Tuple) and isinstance(p.target.elts[0], ast.Name) and p.target.elts[0].id == sb.slice.id:
                     it = ast.unparse(p.iter)
-                    if it == "enumerate(data)":
+                    if it == f"enumerate({D})":
                         ok = True
                     else:
-                        why = f"`{s.slice.id}` enumerates `{it}`, not the previous frontier `data`"
+                        why = f"`{sb.slice.id}` enumerates `{it}`, not the previous value frontier `{D}`"
                     break
+        else:
+            why = "index expression is not a plain loop index"
+            if not isinstance(sb.slice, (ast.Constant, ast.Slice)):
+                inst["verdict"] = "undecided"
+                r.undecided.append(inst)
+                continue
         if ok:
             r.ok()
         else:
-            r.fail(Finding("R-LOCKSTEP", f"R-LOCKSTEP|datapath.DataPath.get_data|{norm(s)}", f"{f.file}:{s.lineno}",
-                           f"`{norm(s)}`: the parent path is looked up by an index that is not the node's position in the previous frontier ({why}); "
+            r.fail(Finding("R-LOCKSTEP", f"R-LOCKSTEP|datapath.DataPath.get_data|parent-path-index", f"{f.file}:{sb.lineno}",
+                           f"`{norm(sb)}`: the parent path is looked up by an index that is not the node's position in the previous frontier ({why}); "
                            f"after a skipped node every later sibling is reported with the wrong path prefix", []))
-    if not subs:
-        raise AnalysisError("get_data: no `concrete_paths[...]` lookup found in the part loop")
-    # (2) data frontier and path frontier are extended from the same filtered object, in the same loop body, and skipped together
-    node_loops = [n for n in ast.walk(part_loop) if isinstance(n, ast.For) and n is not part_loop and ast.unparse(n.iter).startswith("enumerate(")]
-    ext_data = [n for n in ast.walk(part_loop) if isinstance(n, ast.Call) and isinstance(n.func, ast.Attribute) and n.func.attr in ("extend", "append") and isinstance(n.func.value, ast.Name) and n.func.value.id == "new_data"]
-    path_updates = [n for n in ast.walk(part_loop) if isinstance(n, (ast.Assign, ast.AugAssign)) and any(isinstance(t, ast.Name) and t.id == "new_concrete_paths" for t in (n.targets if isinstance(n, ast.Assign) else [n.target]))
-                    and not (isinstance(n, ast.Assign) and isinstance(n.value, ast.List) and not n.value.elts)]
-    inst = {"data extended by": [norm(x) for x in ext_data], "paths extended by": [norm(x) for x in path_updates]}
+    # (2) same filtered object feeds both frontiers, in the same node iteration
+    dsrc = {u[3] for u in upd if u[0] == "data"}
+    ksrc = {u[3] for u in upd if u[0] == "keys"}
+    inst = {"values from": sorted(dsrc), "paths from": sorted(ksrc)}
     r.instances.append(inst)
-    src_d = {ast.unparse(x.args[0]).rsplit(".", 1)[0] for x in ext_data if x.args}
-    src_p = set()
-    for u in path_updates:
-        for n in ast.walk(u.value):
-            if isinstance(n, ast.Attribute) and n.attr == "keys" and isinstance(n.value, ast.Name):
-                src_p.add(n.value.id)
-    same_loop = all(_enclosing(x, ast.For) is _enclosing(u, ast.For) for x in ext_data for u in path_updates) and ext_data and path_updates
-    attrs_ok = all(ast.unparse(x.args[0]).endswith(".data") for x in ext_data if x.args)
-    if src_d == src_p and len(src_d) == 1 and same_loop and attrs_ok:
+    def node_iter_of(n):
+        loops = [p for p in _parents(n) if isinstance(p, ast.For)]
+        return loops[-2] if len(loops) >= 2 and loops[-1] is part_loop else (loops[-1] if loops else None)
+    same_iter = len({id(node_iter_of(u[2])) for u in upd}) == 1
+    if dsrc == ksrc and len(dsrc) == 1 and same_iter:
         r.ok()
     else:
         r.fail(Finding("R-LOCKSTEP", "R-LOCKSTEP|datapath.DataPath.get_data|same-source", where,
-                       f"the value frontier is extended from {sorted(src_d)} and the path frontier from {sorted(src_p)} (same loop body: {bool(same_loop)}): "
-                       f"both must come from `.data` / `.keys` of the same filtered object in the same iteration, or values and paths drift apart", []))
-    # (3) both frontiers reset at the top of the part loop and copied at its end
-    txt = [norm(s) for s in part_loop.body]
-    inst = {"part loop resets / copies": [t for t in txt if t.startswith(("new_", "data =", "concrete_paths ="))]}
+                       f"the value frontier is extended from {sorted(dsrc)}.data and the path frontier from {sorted(ksrc)}.keys (same iteration: {same_iter}): "
+                       f"both must come from the same filtered object in the same iteration, or values and paths drift apart", []))
+    # (3) both next frontiers reset at the top of the part loop, both copied at its end
+    resets = {stt.targets[0].id for stt in part_loop.body if isinstance(stt, ast.Assign) and isinstance(stt.targets[0], ast.Name) and isinstance(stt.value, ast.List) and not stt.value.elts}
+    inst = {"reset per part": sorted(resets), "copied": {nd: D, np_: P}}
     r.instances.append(inst)
-    need = {"new_data = []", "new_concrete_paths = []", "concrete_paths = new_concrete_paths", "data = new_data"}
-    if need <= set(txt):
+    if {nd, np_} <= resets:
         r.ok()
     else:
         r.fail(Finding("R-LOCKSTEP", "R-LOCKSTEP|datapath.DataPath.get_data|reset-copy", f"{f.file}:{part_loop.lineno}",
-                       f"per-part bookkeeping must reset and copy both frontiers together; missing {sorted(need - set(txt))}", []))
-    # (4) between the part loop and zip(data, concrete_paths) only length-preserving updates of `data`
+                       f"both next frontiers ({nd}, {np_}) must be reset to [] at the top of the per-part loop; reset: {sorted(resets)}", []))
+    # (4) between the part loop and zip(D, P) only the length-preserving datum extraction may touch a frontier
     idx = f.node.body.index(part_loop)
-    after = f.node.body[idx + 1:]
     zip_seen = False
-    for st in after:
-        for n in ast.walk(st):
-            if isinstance(n, ast.Call) and isinstance(n.func, ast.Name) and n.func.id == "zip" and [ast.unparse(a) for a in n.args] == ["data", "concrete_paths"]:
+    for stt in f.node.body[idx + 1:]:
+        for n in ast.walk(stt):
+            if isinstance(n, ast.Call) and isinstance(n.func, ast.Name) and n.func.id == "zip" and sorted(ast.unparse(a) for a in n.args) == sorted([D, P]):
                 zip_seen = True
         if zip_seen:
             break
-        for n in ast.walk(st):
+        for n in ast.walk(stt):
+            bad = None
             if isinstance(n, (ast.Assign, ast.AugAssign)):
                 tg = n.targets if isinstance(n, ast.Assign) else [n.target]
                 for t in tg:
-                    if isinstance(t, ast.Name) and t.id in ("data", "concrete_paths"):
+                    if isinstance(t, ast.Name) and t.id in (D, P):
                         inst = {"between loop and zip": norm(n)}
                         r.instances.append(inst)
-                        if isinstance(n, ast.Assign) and norm(n.value) == "self._extract_specified_datum_type(data)" and t.id == "data":
+                        if isinstance(n, ast.Assign) and t.id == D and norm(n.value) == f"self._extract_specified_datum_type({D})":
                             r.ok()
                         else:
-                            r.fail(Finding("R-LOCKSTEP", f"R-LOCKSTEP|datapath.DataPath.get_data|{norm(n)}", f"{f.file}:{n.lineno}",
-                                           f"`{norm(n)}` changes one frontier before values and paths are zipped; only the length-preserving datum extraction may touch `data` there", []))
-            if isinstance(n, ast.Call) and isinstance(n.func, ast.Attribute) and isinstance(n.func.value, ast.Name) and n.func.value.id in ("data", "concrete_paths") and n.func.attr in ("pop", "remove", "insert", "append", "extend", "clear", "sort", "reverse"):
+                            bad = n
+            if isinstance(n, ast.Call) and isinstance(n.func, ast.Attribute) and isinstance(n.func.value, ast.Name) and n.func.value.id in (D, P) and n.func.attr in ("pop", "remove", "insert", "append", "extend", "clear", "sort", "reverse"):
                 r.instances.append({"between loop and zip": norm(n)})
-                r.fail(Finding("R-LOCKSTEP", f"R-LOCKSTEP|datapath.DataPath.get_data|{norm(n)}", f"{f.file}:{n.lineno}", f"`{norm(n)}` changes one frontier before values and paths are zipped", []))
-    inst = {"zip(data, concrete_paths) present": zip_seen}
+                bad = n
+            if bad is not None:
+                r.fail(Finding("R-LOCKSTEP", f"R-LOCKSTEP|datapath.DataPath.get_data|pre-zip|{norm(bad)[:50]}", f"{f.file}:{bad.lineno}",
+                               f"`{norm(bad)}` changes one frontier before values and paths are zipped; only the length-preserving datum extraction may touch the value frontier there", []))
+    inst = {f"zip({D}, {P}) present": zip_seen}
     r.instances.append(inst)
     if zip_seen:
         r.ok()
@@ -162,14 +237,14 @@ def rule_lockstep(ctx):
         r.undecided.append(inst)
     # (5) datum extraction is length-preserving
     ex = prog.func("datapath.DataPath._extract_specified_datum_type")
-    comps = [n for n in ast.walk(ex.node) if isinstance(n, ast.ListComp)]
-    for c in comps:
+    pname = ex.params[1].name if len(ex.params) > 1 else "data"
+    for c in [n for n in ast.walk(ex.node) if isinstance(n, ast.ListComp)]:
         inst = {"datum extraction": norm(c)}
         r.instances.append(inst)
-        if len(c.generators) == 1 and not c.generators[0].ifs and ast.unparse(c.generators[0].iter) == "data":
+        if len(c.generators) == 1 and not c.generators[0].ifs and ast.unparse(c.generators[0].iter) == pname:
             r.ok()
         else:
-            r.fail(Finding("R-LOCKSTEP", f"R-LOCKSTEP|datapath.DataPath._extract_specified_datum_type|{norm(c)}", f"{ex.file}:{c.lineno}",
+            r.fail(Finding("R-LOCKSTEP", f"R-LOCKSTEP|datapath.DataPath._extract_specified_datum_type|{norm(c)[:50]}", f"{ex.file}:{c.lineno}",
                            "datum extraction must map every selected node (no filter clause): the result is zipped with the concrete paths", []))
     return r
 
@@ -309,80 +384,167 @@ def rule_writers(ctx):
 # ------------------------------------------------------------------------------------------
 # C05
 # ------------------------------------------------------------------------------------------
+def _assigned_from(func, pred):
+    """[(target name, Assign)] for assignments whose value satisfies pred."""
+    out = []
+    for n in ast.walk(func.node):
+        if isinstance(n, ast.Assign) and len(n.targets) == 1 and pred(n.value):
+            out.append((norm(n.targets[0]), n))
+    return out
+
+
 def rule_collect(ctx):
+    """Collection discipline of RuleTest._test.  Each clause has recognised good forms, known
+    bad forms (violations) and is otherwise undecided."""
     prog = ctx.prog
-    r = RuleResult("R-COLLECT", floor=8)
+    r = RuleResult("R-COLLECT", floor=6)
     f = prog.func("rules.RuleTest._test")
     where = f"{f.file}:{f.node.lineno}"
-    body = f.node.body
-    stmts = {norm(s): s for s in body}
-    # select with paths on the rule test's own document
-    inst = {"selection": [t for t in stmts if t.startswith("sub_data =")]}
+    canon_l = lambda e: canon(inline_any(prog, f, e))
+
+    # (a) selection with paths on the test's own document
+    sel = _assigned_from(f, lambda v: isinstance(v, ast.Call) and isinstance(v.func, ast.Attribute) and v.func.attr == "get_data")
+    inst = {"selection": [norm(a) for _, a in sel]}
     r.instances.append(inst)
-    if "sub_data = self.rule.path.get_data(self.data, return_paths=True)" in stmts:
+    if not sel:
+        r.undecided.append(inst)
+        return r
+    SEL, sel_as = sel[0]
+    call = sel_as.value
+    kws = {k.arg: norm(k.value) for k in call.keywords}
+    if norm(call.func.value) == "self.rule.path" and [norm(a) for a in call.args] == ["self.data"] and kws.get("return_paths") == "True":
         r.ok()
     else:
-        r.fail(Finding("R-COLLECT", "R-COLLECT|rules.RuleTest._test|selection", where, "the rule's nodes must be selected with `self.rule.path.get_data(self.data, return_paths=True)`", []))
-    # R-EXISTS
-    inst = {"path exists": [t for t in stmts if t.startswith("path_exists =")]}
+        r.fail(Finding("R-COLLECT", "R-COLLECT|rules.RuleTest._test|selection", f"{f.file}:{sel_as.lineno}",
+                       f"`{norm(sel_as)}`: the rule's nodes must be selected with `self.rule.path.get_data(self.data, return_paths=True)` (own document, with concrete paths)", []))
+    # (b) R-EXISTS
+    ex = _assigned_from(f, lambda v: isinstance(v, (ast.Compare, ast.BoolOp, ast.UnaryOp, ast.Call)) and SEL in {n.id for n in ast.walk(v) if isinstance(n, ast.Name)} and not (isinstance(v, ast.Call) and getattr(v.func, "attr", "") == "filter"))
+    inst = {"path exists": [norm(a) for _, a in ex]}
     r.instances.append(inst)
-    if "path_exists = sub_data not in [None, []]" in stmts:
-        r.ok()
-    elif inst["path exists"]:
-        r.fail(Finding("R-EXISTS", "R-EXISTS|rules.RuleTest._test", where, f"`{inst['path exists'][0]}`: the path exists iff the selection is neither None nor empty", []))
+    EX = None
+    if ex:
+        EX, ex_as = ex[0]
+        c = canon(ex_as.value, {SEL: "S"})
+        good = {"S not in [None, []]", "S not in (None, [])", "S is not None and S != []", "not (S is None or S == [])", "not S in [None, []]", "S != [] and S is not None"}
+        bad = {"S is not None", "S != []", "not not S", "S != None", "S not in [None]", "S not in [[]]", "True"}
+        if c in good:
+            r.ok()
+        elif c in bad:
+            r.fail(Finding("R-EXISTS", "R-EXISTS|rules.RuleTest._test", f"{f.file}:{ex_as.lineno}",
+                           f"`{norm(ex_as)}`: the path exists iff the selection is neither None (concrete path, absent) nor empty (non-concrete path, no match)", []))
+        else:
+            r.undecided.append(inst)
     else:
         r.undecided.append(inst)
-    top_if = next((s for s in body if isinstance(s, ast.If) and norm(s.test) == "path_exists"), None)
-    if top_if is None:
-        raise AnalysisError("RuleTest._test: `if path_exists:` not found")
-    # filter call
-    filt = None
-    for n in ast.walk(top_if):
-        if isinstance(n, ast.Call) and isinstance(n.func, ast.Attribute) and n.func.attr == "filter":
-            filt = n
-    inst = {"filter call": norm(filt) if filt else None}
+    # (c) filter call under the path-exists guard
+    filt = [n for n in ast.walk(f.node) if isinstance(n, ast.Call) and isinstance(n.func, ast.Attribute) and n.func.attr == "filter" and "condition" in norm(n.func.value)]
+    inst = {"filter call": [norm(x) for x in filt]}
     r.instances.append(inst)
-    kws = {k.arg: norm(k.value) for k in filt.keywords} if filt else {}
-    if filt and norm(filt.func.value) == "self.rule.condition" and [norm(a) for a in filt.args] == ["sub_data"] and kws.get("data_has_paths") == "True" and kws.get("source_data") == "self.data" and _enclosing(filt, ast.If) is top_if:
-        r.ok()
-    else:
-        r.fail(Finding("R-COLLECT", "R-COLLECT|rules.RuleTest._test|filter", where,
-                       "the condition must filter `sub_data` with data_has_paths=True and source_data=self.data, under the path-exists guard", []))
-    # verdict
-    inner = next((s for s in top_if.body if isinstance(s, ast.If)), None)
-    inst = {"verdict test": norm(inner.test) if inner else None}
-    r.instances.append(inst)
-    def assigns(block, attr):
-        return [norm(s.value) for s in block if isinstance(s, ast.Assign) and isinstance(s.targets[0], ast.Attribute) and s.targets[0].attr == attr]
-    ok = inner is not None and norm(inner.test) == "all(filtered_data.result)" and assigns(inner.body, "_is_valid") == ["True"] and assigns(inner.orelse, "_is_valid") == ["False"] \
-        and assigns(top_if.orelse, "_is_valid") == ["True"] and assigns(top_if.body, "_tested") == ["True"] and assigns(top_if.orelse, "_tested") == ["False"]
-    if ok:
-        r.ok()
-    else:
-        r.fail(Finding("R-COLLECT", "R-COLLECT|rules.RuleTest._test|verdict", where,
-                       "valid iff all(filtered_data.result) when the path exists (tested), valid and not tested when it does not", []))
-    # failure collection
-    loop = next((n for n in ast.walk(top_if) if isinstance(n, ast.For)), None)
-    inst = {"failure loop": head(loop) if loop else None}
-    r.instances.append(inst)
-    if loop is None or norm(loop.iter) != "filtered_data":
-        r.fail(Finding("R-COLLECT", "R-COLLECT|rules.RuleTest._test|loop", where, "failures must be collected by iterating over every item of filtered_data", []))
-    else:
-        lo, hi, jumps = count_appends(loop.body, "failures")
-        guard = loop.body[0] if len(loop.body) == 1 and isinstance(loop.body[0], ast.If) else None
-        inst["appends_per_item"] = [lo, hi]
-        inst["guard"] = norm(guard.test) if guard else None
-        if (lo, hi) == (0, 1) and not jumps and guard is not None and norm(guard.test) == "not f_item.result" and not guard.orelse:
-            r.ok()
+    FD = None
+    if len(filt) == 1:
+        fc = filt[0]
+        kws = {k.arg: norm(k.value) for k in fc.keywords}
+        args = [norm(a) for a in fc.args]
+        problems = []
+        if norm(fc.func.value) != "self.rule.condition":
+            problems.append("the rule's own condition must filter")
+        if len(args) != 1 or not isinstance(fc.args[0], ast.Name):
+            problems.append("the selection must be filtered")
+        if kws.get("data_has_paths") != "True":
+            problems.append("data_has_paths=True is required (the selection carries concrete paths)")
+        if kws.get("source_data") != "self.data":
+            problems.append("source_data=self.data is required (path arguments are resolved against the validated document)")
+        facts = facts_at(prog, f, fc, canon)
+        if EX and EX not in facts:
+            problems.append(f"the call must be guarded by `{EX}`")
+        if problems:
+            r.fail(Finding("R-COLLECT", "R-COLLECT|rules.RuleTest._test|filter", f"{f.file}:{fc.lineno}", f"`{norm(fc)[:120]}`: " + "; ".join(problems), []))
         else:
-            r.fail(Finding("R-COLLECT", "R-COLLECT|rules.RuleTest._test|append", f"{f.file}:{loop.lineno}",
-                           f"each item of filtered_data must be recorded exactly when `not f_item.result` (guard: {inst['guard']}, appends per item {lo}..{hi}, jumps {[head(j) for j in jumps]})", []))
-    inst = {"failures published": [t for t in stmts if t.startswith("self._failures")]}
-    r.instances.append(inst)
-    if "self._failures = tuple(failures)" in stmts and body.index(stmts["self._failures = tuple(failures)"]) > body.index(top_if):
-        r.ok()
+            r.ok()
+        stf = stmt_of(fc)
+        if isinstance(stf, ast.Assign) and isinstance(stf.targets[0], ast.Name):
+            FD = stf.targets[0].id
     else:
-        r.fail(Finding("R-COLLECT", "R-COLLECT|rules.RuleTest._test|publish", where, "`self._failures = tuple(failures)` must follow the collection on every path", []))
+        r.undecided.append(inst)
+    # (d) verdict
+    valid_as = [n for n in ast.walk(f.node) if isinstance(n, ast.Assign) and norm(n.targets[0]) == "self._is_valid"]
+    inst = {"verdict assignments": [f"{norm(a)} under {sorted(facts_at(prog, f, a, canon))}" for a in valid_as]}
+    r.instances.append(inst)
+    if FD and valid_as:
+        allx = f"all({FD}.result)"
+        ok, bad, und = True, None, False
+        for a in valid_as:
+            facts = facts_at(prog, f, a, canon)
+            v = canon(a.value)
+            if v == allx:
+                continue
+            if v == "True":
+                if allx in facts or (EX and f"not {EX}" in facts):
+                    continue
+                ok, bad = False, a
+            elif v == "False":
+                if f"not {allx}" in facts:
+                    continue
+                ok, bad = False, a
+            elif v.startswith("any(") or v.startswith(f"all({FD}.result[") or "[0]" in v:
+                ok, bad = False, a
+            else:
+                und = True
+        if not ok:
+            r.fail(Finding("R-COLLECT", "R-COLLECT|rules.RuleTest._test|verdict", f"{f.file}:{bad.lineno}",
+                           f"`{norm(bad)}`: the rule is valid iff every selected node satisfies the condition (all of {FD}.result), or the path selects nothing", []))
+        elif und:
+            r.undecided.append(inst)
+        else:
+            r.ok()
+    else:
+        r.undecided.append(inst)
+    # (e) failures: every failing item and only failing items
+    inst = {"failure collection": None}
+    r.instances.append(inst)
+    decided = False
+    if FD:
+        loops = [n for n in ast.walk(f.node) if isinstance(n, ast.For) and norm(n.iter) == FD]
+        comps = [n for n in ast.walk(f.node) if isinstance(n, (ast.ListComp, ast.GeneratorExp)) and len(n.generators) == 1 and norm(n.generators[0].iter) == FD]
+        if loops:
+            lp = loops[0]
+            item = _target_names(lp.target)[-1]
+            lists = {n.func.value.id for n in ast.walk(lp) if isinstance(n, ast.Call) and isinstance(n.func, ast.Attribute) and n.func.attr == "append" and isinstance(n.func.value, ast.Name)}
+            if len(lists) == 1:
+                lst = next(iter(lists))
+                lo, hi, jumps = count_appends(lp.body, lst)
+                app = next(n for n in ast.walk(lp) if isinstance(n, ast.Call) and isinstance(n.func, ast.Attribute) and n.func.attr == "append")
+                guards = {g for g in facts_at(prog, f, app, canon) if item in g}
+                inst["failure collection"] = {"loop": head(lp), "guards on the item": sorted(guards), "appends per item": [lo, hi], "jumps": [head(x) for x in jumps]}
+                decided = True
+                if guards == {f"not {item}.result"} and (lo, hi) == (0, 1) and not jumps:
+                    r.ok()
+                else:
+                    r.fail(Finding("R-COLLECT", "R-COLLECT|rules.RuleTest._test|append", f"{f.file}:{lp.lineno}",
+                                   f"an item of {FD} must be recorded exactly when `not {item}.result` (guards on the item: {sorted(guards)}, appends per item {lo}..{hi}, jumps {[head(x) for x in jumps]})", []))
+        elif comps:
+            cp = comps[0]
+            item = _target_names(cp.generators[0].target)[-1]
+            ifs = {canon(x) for x in cp.generators[0].ifs}
+            inst["failure collection"] = {"comprehension": norm(cp)[:100], "filter": sorted(ifs)}
+            decided = True
+            if ifs == {f"not {item}.result"}:
+                r.ok()
+            else:
+                r.fail(Finding("R-COLLECT", "R-COLLECT|rules.RuleTest._test|append", f"{f.file}:{cp.lineno}",
+                               f"failures must be exactly the items of {FD} with `not {item}.result` (comprehension filter: {sorted(ifs)})", []))
+    if not decided:
+        r.undecided.append(inst)
+    # (f) publication and count
+    pub = [n for n in ast.walk(f.node) if isinstance(n, ast.Assign) and norm(n.targets[0]) == "self._failures"]
+    inst = {"failures published": [norm(x) for x in pub]}
+    r.instances.append(inst)
+    if pub and all(isinstance(x.value, ast.Call) and norm(x.value.func) == "tuple" for x in pub) and pub[-1] in f.node.body:
+        r.ok()
+    elif pub and any(isinstance(x.value, ast.Constant) for x in pub):
+        r.fail(Finding("R-COLLECT", "R-COLLECT|rules.RuleTest._test|publish", where, "the collected failures must be published as `self._failures = tuple(<failures>)` on every path", []))
+    else:
+        r.undecided.append(inst)
     rt = prog.cls("rules.RuleTest")
     nf = rt.lookup_method("num_failures")
     rv = single_return(nf) if nf else None
@@ -390,9 +552,10 @@ def rule_collect(ctx):
     r.instances.append(inst)
     if rv is not None and norm(rv) in ("len(self.failures)", "len(self._failures)"):
         r.ok()
+    elif rv is not None and isinstance(rv, ast.Call) and norm(rv.func) == "len":
+        r.fail(Finding("R-COLLECT", "R-COLLECT|rules.RuleTest.num_failures", where, f"the failure count must be the length of the failure list (found `{norm(rv)}`)", []))
     else:
-        r.fail(Finding("R-COLLECT", "R-COLLECT|rules.RuleTest.num_failures", where, "the failure count must be the length of the failure list", []))
-    # _test only from __init__, attributes definitely assigned (both branches of the top-level if / unconditional)
+        r.undecided.append(inst)
     callers = [g.qualname for g in prog.all_functions() for n in ast.walk(g.node) if isinstance(n, ast.Call) and isinstance(n.func, ast.Attribute) and n.func.attr == "_test"]
     inst = {"_test callers": callers}
     r.instances.append(inst)
@@ -400,74 +563,128 @@ def rule_collect(ctx):
         r.ok()
     else:
         r.fail(Finding("R-DEFATTR", "R-DEFATTR|rules.RuleTest._test|callers", where, f"_test must run exactly once per rule test, from RuleTest.__init__ (callers: {callers})", []))
-    # the rule test judges the (possibly cast) copy it was given
+    # (g) Rule.test judges a fresh RuleTest on the (possibly cast) copy
     rule_test = prog.func("rules.Rule.test")
-    rets = [norm(x.value) for x in _returns(rule_test) if x.value is not None]
-    inst = {"Rule.test returns": rets}
+    rets = [x.value for x in _returns(rule_test) if x.value is not None]
+    inst = {"Rule.test returns": [norm(x) for x in rets]}
     r.instances.append(inst)
-    if rets == ["RuleTest(self, data_copy)"]:
-        r.ok()
-    else:
+    ctor = [x for x in rets if isinstance(x, ast.Call) and norm(x.func) == "RuleTest"]
+    if rets and len(ctor) == len(rets):
+        # the document argument must be the copy variable (the one set_datum writes into), not the original parameter
+        sd = [n for n in ast.walk(rule_test.node) if isinstance(n, ast.Call) and norm(n.func) == "set_datum" and n.args]
+        copyvar = norm(sd[0].args[0]) if sd else None
+        if copyvar and all(len(x.args) == 2 and norm(x.args[0]) == "self" and norm(x.args[1]) == copyvar for x in ctor):
+            r.ok()
+        elif copyvar:
+            r.fail(Finding("R-COLLECT", "R-COLLECT|rules.Rule.test|return", f"{rule_test.file}:{ctor[0].lineno}",
+                           f"Rule.test must judge the copy that received the casts (`RuleTest(self, {copyvar})`); found {[norm(x) for x in ctor]}", []))
+        else:
+            r.undecided.append(inst)
+    elif rets:
         r.fail(Finding("R-COLLECT", "R-COLLECT|rules.Rule.test|return", f"{rule_test.file}:{rule_test.node.lineno}",
-                       f"Rule.test must return a fresh `RuleTest(self, data_copy)` on every path (found {rets}): a cached or differently-sourced result is not the verdict on this document", []))
+                       f"Rule.test must return a fresh `RuleTest(...)` on every path (found {[norm(x) for x in rets]}): a remembered result is not the verdict on this document", []))
+    else:
+        r.undecided.append(inst)
     return r
 
 
 def rule_record(ctx):
     prog = ctx.prog
     r = RuleResult("R-RECORD", floor=3)
-    f = prog.func("rules.RuleTest._test")
-    call = None
-    for n in ast.walk(f.node):
-        if isinstance(n, ast.Call) and isinstance(n.func, ast.Name) and n.func.id == "RuleTestFailureItem":
-            call = n
-    if call is None:
-        raise AnalysisError("RuleTest._test: RuleTestFailureItem(...) not found")
+    rt = prog.cls("rules.RuleTest")
+    call, host = None, None
+    for m in rt.methods.values():
+        for n in ast.walk(m.node):
+            if isinstance(n, ast.Call) and isinstance(n.func, ast.Name) and n.func.id == "RuleTestFailureItem":
+                call, host = n, m
+    inst = {"failure record": norm(call)[:160] if call else None}
+    r.instances.append(inst)
     init = prog.func("rules.RuleTestFailureItem.__init__")
     names = [p.name for p in init.params[1:]]
-    got = {k.arg: norm(k.value) for k in call.keywords}
-    for i, a in enumerate(call.args):
-        got[names[i]] = norm(a)
-    want = {"rule_test": "self", "index": "f_item.index", "value": "f_item.source", "path": "f_item.concrete_path", "reasons": "f_item.get_failure()"}
-    inst = {"failure record": got}
-    r.instances.append(inst)
-    if got == want:
-        r.ok()
+    if call is None:
+        r.undecided.append(inst)
     else:
-        bad = {k: (got.get(k), v) for k, v in want.items() if got.get(k) != v}
-        r.fail(Finding("R-RECORD", "R-RECORD|rules.RuleTest._test|RuleTestFailureItem", f"{f.file}:{call.lineno}",
-                       f"the failure record must carry the item's index, value (source), concrete path and reasons: {bad}", []))
+        got = {k.arg: k.value for k in call.keywords}
+        for i, a in enumerate(call.args):
+            got[names[i]] = a
+        # the item variable: the name whose attributes feed index / value / path
+        items = {n.value.id for v in got.values() for n in ast.walk(v) if isinstance(n, ast.Attribute) and isinstance(n.value, ast.Name) and n.value.id != "self"}
+        if len(items) == 1:
+            it = next(iter(items))
+            gotc = {k: canon(v, {it: "ITEM"}) for k, v in got.items()}
+            want = {"rule_test": "self", "index": "ITEM.index", "value": "ITEM.source", "path": "ITEM.concrete_path", "reasons": "ITEM.get_failure()"}
+            inst["fields"] = gotc
+            if gotc == want:
+                r.ok()
+            else:
+                bad = {k: (gotc.get(k), v) for k, v in want.items() if gotc.get(k) != v}
+                r.fail(Finding("R-RECORD", "R-RECORD|rules.RuleTest|RuleTestFailureItem", f"{host.file}:{call.lineno}",
+                               f"the failure record must carry the item's own index, value (source), concrete path and reasons: {bad}", []))
+        else:
+            r.undecided.append(inst)
     stores = {norm(s) for s in init.node.body}
     inst = {"RuleTestFailureItem.__init__": sorted(stores)}
     r.instances.append(inst)
     if {f"self.{n} = {n}" for n in names} <= stores:
         r.ok()
     else:
-        r.fail(Finding("R-RECORD", "R-RECORD|rules.RuleTestFailureItem.__init__", f"{init.file}:{init.node.lineno}", "every parameter must be stored in the field of the same name", []))
+        swapped = [x for x in stores if x.startswith("self.") and " = " in x and x.split(" = ")[1] in names and x.split(" = ")[0] != "self." + x.split(" = ")[1]]
+        if swapped:
+            r.fail(Finding("R-RECORD", "R-RECORD|rules.RuleTestFailureItem.__init__", f"{init.file}:{init.node.lineno}", f"every parameter must be stored in the field of the same name (found {swapped})", []))
+        else:
+            r.undecided.append(inst)
     # R-INDEX
     it = prog.func("data.FilteredDataItem.__init__")
     reads = {}
-    for s in it.node.body:
-        if isinstance(s, ast.Assign) and isinstance(s.value, ast.Subscript):
-            reads[norm(s.targets[0])] = norm(s.value)
-    inst = {"FilteredDataItem fields": reads}
+    for s_ in it.node.body:
+        if isinstance(s_, ast.Assign) and isinstance(s_.value, ast.Subscript):
+            reads[norm(s_.targets[0])] = s_.value
+    inst = {"FilteredDataItem fields": {k: norm(v) for k, v in reads.items()}}
     r.instances.append(inst)
-    want = {"self.source": "self.filtered_data_like.source[self.index]", "self.result": "self.filtered_data_like.result[self.index]", "self.concrete_path": "self.filtered_data_like.concrete_paths[self.index]"}
-    if reads == want:
-        r.ok()
-    else:
-        r.fail(Finding("R-INDEX", "R-INDEX|data.FilteredDataItem.__init__", f"{it.file}:{it.node.lineno}",
-                       f"value, result and concrete path of an item must be read from the same filtered object at the same index: {reads}", []))
-    # failure text: every failing item yields a tuple
-    gf = prog.func("data.FilteredDataLike.get_failure_by_index")
-    rets = [norm(x.value) if x.value is not None else None for x in _returns(gf)]
-    inst = {"get_failure_by_index returns": rets}
-    r.instances.append(inst)
-    if set(rets) <= {"None", "tuple(failure)"} and "tuple(failure)" in rets:
-        r.ok()
+    need = {"self.source": "source", "self.result": "result", "self.concrete_path": "concrete_paths"}
+    if set(need) <= set(reads):
+        idxs = {norm(v.slice) for k, v in reads.items() if k in need}
+        bases = {norm(v.value.value) for k, v in reads.items() if k in need and isinstance(v.value, ast.Attribute)}
+        attrs_ok = all(isinstance(reads[k].value, ast.Attribute) and reads[k].value.attr == a for k, a in need.items())
+        if len(idxs) == 1 and len(bases) == 1 and attrs_ok:
+            r.ok()
+        else:
+            r.fail(Finding("R-INDEX", "R-INDEX|data.FilteredDataItem.__init__", f"{it.file}:{it.node.lineno}",
+                           f"value, result and concrete path of an item must be read from the same filtered object at the same index: {inst['FilteredDataItem fields']}", []))
     else:
         r.undecided.append(inst)
     return r
+
+
+def child_flags(prog, b):
+    """Flags handed to the two children of a combination for data_has_paths True / False, by
+    finite evaluation of the statements that compute them."""
+    from ..finite import run_block
+    calls = [n for n in ast.walk(b.node) if isinstance(n, ast.Call) and isinstance(n.func, ast.Attribute) and n.func.attr == "_filter" and len(n.args) >= 2]
+    if not calls:
+        return {"undecided": True}
+    a1 = calls[0].args[1]
+    if not (isinstance(a1, ast.Subscript) and isinstance(a1.value, ast.Name)):
+        return {"undecided": True}
+    flagvar = a1.value.id
+    pre = []
+    for st in b.node.body:
+        if any(n is calls[0] for n in ast.walk(st)):
+            break
+        if isinstance(st, ast.Expr) and isinstance(st.value, ast.Constant):
+            continue
+        if isinstance(st, (ast.Assign, ast.If)) and flagvar in ast.unparse(st):
+            pre.append(st)
+    out = {}
+    for val in (True, False):
+        ev = ConstEval(prog, b.module, {"data_has_paths": val})
+        try:
+            run_block(ev, pre)
+            v = ev.env.get(flagvar)
+            out[val] = list(v) if isinstance(v, (list, tuple)) else None
+        except Undecidable:
+            return {"undecided": True}
+    return out
 
 
 def rule_flag(ctx):
@@ -491,12 +708,15 @@ def rule_flag(ctx):
     else:
         r.fail(Finding("R-FLAG", "R-FLAG|data.FilteredData.__init__", f"{g.file}:{g.node.lineno}", "paths must be split off (`self.source.extract_paths()`) exactly under `data_has_paths`", []))
     b = prog.func("conditions.ConditionBinaryOp._filter")
-    txt = [norm(s) for n in ast.walk(b.node) if isinstance(n, ast.If) and norm(n.test) == "data_has_paths" for s in n.body + n.orelse]
-    r.instances.append({"site": "ConditionBinaryOp._filter flags", "stmts": txt})
-    if txt == ["data_has_paths = [True, False]", "data_has_paths = [False, False]"]:
+    flags = child_flags(prog, b)
+    r.instances.append({"site": "ConditionBinaryOp._filter flags", "data_has_paths=True": flags.get(True), "data_has_paths=False": flags.get(False)})
+    if flags.get("undecided"):
+        r.undecided.append({"site": "ConditionBinaryOp._filter flags"})
+    elif flags.get(True) == [True, False] and flags.get(False) == [False, False]:
         r.ok()
     else:
-        r.fail(Finding("R-FLAG", "R-FLAG|conditions.ConditionBinaryOp._filter", f"{b.file}:{b.node.lineno}", "only the first child may receive data_has_paths (the first leaf that filters splits the paths off)", []))
+        r.fail(Finding("R-FLAG", "R-FLAG|conditions.ConditionBinaryOp._filter", f"{b.file}:{b.node.lineno}",
+                       f"only the first child may receive data_has_paths (the first leaf that filters splits the paths off); children receive {flags.get(True)} / {flags.get(False)}", []))
     ep = prog.func("data.Data.extract_paths")
     body = [norm(s) for s in ep.node.body]
     r.instances.append({"site": "Data.extract_paths", "stmts": body})
@@ -552,27 +772,58 @@ def rule_fold(ctx):
     # one rule test per rule over the same document and the same copy
     init = prog.func("schema.ValidatedData.__init__")
     rt = None
-    for s in init.node.body:
-        if isinstance(s, ast.Assign) and norm(s.targets[0]) == "self.rule_tests":
-            rt = s.value
+    for s_ in init.node.body:
+        if isinstance(s_, ast.Assign) and norm(s_.targets[0]) == "self.rule_tests":
+            rt = s_.value
     inst = {"rule_tests": norm(rt) if rt is not None else None}
     r.instances.append(inst)
-    if rt is not None and canon(rt) == "tuple((_v0.test(self.data, _data_copy=data_copy) for _v0 in self.schema.rules))":
+    gen = None
+    if isinstance(rt, ast.Call) and norm(rt.func) in ("tuple", "list") and len(rt.args) == 1:
+        a = rt.args[0]
+        if isinstance(a, (ast.GeneratorExp, ast.ListComp)):
+            gen = ("comp", a)
+        elif isinstance(a, ast.Name):
+            lp = next((n for n in init.node.body if isinstance(n, ast.For) and any(isinstance(x, ast.Call) and isinstance(x.func, ast.Attribute) and x.func.attr == "append" and norm(x.func.value) == a.id for x in ast.walk(n))), None)
+            if lp is not None:
+                gen = ("loop", lp, a.id)
+    elif isinstance(rt, (ast.ListComp,)):
+        gen = ("comp", rt)
+    def test_call_ok(callnode, var):
+        return (isinstance(callnode, ast.Call) and isinstance(callnode.func, ast.Attribute) and callnode.func.attr == "test" and norm(callnode.func.value) == var
+                and [norm(x) for x in callnode.args] == ["self.data"] and {k.arg: norm(k.value) for k in callnode.keywords} == {"_data_copy": copyvar})
+    copyvar = next((norm(x.targets[0]) for x in init.node.body if isinstance(x, ast.Assign) and isinstance(x.value, ast.Call) and norm(x.value.func) == "copy.deepcopy"), None)
+    if gen is None or copyvar is None:
+        r.undecided.append(inst)
+    elif gen[0] == "comp":
+        g = gen[1]
+        gg = g.generators[0]
+        var = _target_names(gg.target)[-1] if _target_names(gg.target) else "?"
+        if len(g.generators) == 1 and not gg.ifs and norm(gg.iter) == "self.schema.rules" and test_call_ok(g.elt, var):
+            r.ok()
+        else:
+            r.fail(Finding("R-FOLD", "R-FOLD|schema.ValidatedData.__init__|rule_tests", f"{init.file}:{init.node.lineno}",
+                           f"rule_tests is `{canon(rt)[:140]}`; every rule of the schema must be tested once on the same document (self.data) and the same cast copy ({copyvar})", []))
+    else:
+        _, lp, lst = gen
+        var = _target_names(lp.target)[-1]
+        lo, hi, jumps = count_appends(lp.body, lst)
+        app = next(x for x in ast.walk(lp) if isinstance(x, ast.Call) and isinstance(x.func, ast.Attribute) and x.func.attr == "append" and norm(x.func.value) == lst)
+        if norm(lp.iter) == "self.schema.rules" and (lo, hi) == (1, 1) and not jumps and app.args and test_call_ok(app.args[0], var):
+            r.ok()
+        else:
+            r.fail(Finding("R-FOLD", "R-FOLD|schema.ValidatedData.__init__|rule_tests", f"{init.file}:{lp.lineno}",
+                           f"every rule of the schema must be tested exactly once on self.data and {copyvar} (loop `{head(lp)}`, appends per rule {lo}..{hi})", []))
+    v = prog.func("schema.Schema.validate")
+    rets = [x.value for x in _returns(v) if x.value is not None]
+    inst = {"Schema.validate returns": [norm(x) for x in rets]}
+    r.instances.append(inst)
+    if rets and all(isinstance(x, ast.Call) and norm(x.func) == "ValidatedData" and x.args and norm(x.args[0]) == "self" for x in rets):
         r.ok()
-    elif rt is not None and isinstance(rt, ast.Call):
-        r.fail(Finding("R-FOLD", "R-FOLD|schema.ValidatedData.__init__|rule_tests", f"{init.file}:{init.node.lineno}",
-                       f"rule_tests is `{canon(rt)}`; every rule of the schema must be tested once on the same document and the same cast copy", []))
+    elif rets:
+        r.fail(Finding("R-FOLD", "R-FOLD|schema.Schema.validate|return", f"{v.file}:{v.node.lineno}",
+                       f"Schema.validate must build a fresh `ValidatedData(self, ...)` on every call (found {[norm(x) for x in rets]}): a remembered result is not the verdict on this document", []))
     else:
         r.undecided.append(inst)
-    v = prog.func("schema.Schema.validate")
-    rets = [norm(x.value) for x in _returns(v) if x.value is not None]
-    inst = {"Schema.validate returns": rets}
-    r.instances.append(inst)
-    if rets == ["ValidatedData(self, data)"]:
-        r.ok()
-    else:
-        r.fail(Finding("R-FOLD", "R-FOLD|schema.Schema.validate|return", f"{v.file}:{v.node.lineno}",
-                       f"Schema.validate must build a fresh `ValidatedData(self, data)` on every call (found {rets}): a remembered result is not the verdict on this document", []))
     return r
 
 
@@ -701,16 +952,17 @@ def rule_looptry(ctx):
     r = RuleResult("R-LOOPTRY", floor=3)
     f = prog.func("rules.Rule.test")
     where = f"{f.file}:{f.node.lineno}"
-    node_loop = None
-    for n in ast.walk(f.node):
-        if isinstance(n, ast.For) and norm(n.iter) == "sub_data":
-            node_loop = n
+    cast_loops = [n for n in ast.walk(f.node) if isinstance(n, ast.For) and "self.cast" in norm(n.iter)]
+    if not cast_loops:
+        raise AnalysisError("Rule.test: the loop over self.cast not found")
+    cast_loop = cast_loops[0]
+    # the per-node loop: the nearest enclosing loop whose target unpacks (node, path)
+    node_loop = next((p for p in _parents(cast_loop) if isinstance(p, ast.For) and isinstance(p.target, ast.Tuple) and len(p.target.elts) == 2), None)
     if node_loop is None:
-        raise AnalysisError("Rule.test: the loop over the selected (node, path) pairs not found")
-    # the cast call: a call of a loop variable over self.cast.items()
-    cast_loop = next((n for n in ast.walk(node_loop) if isinstance(n, ast.For) and "self.cast" in norm(n.iter)), None)
-    if cast_loop is None:
-        raise AnalysisError("Rule.test: the loop over self.cast not found inside the node loop")
+        r.instances.append({"what": "per-node loop around the cast loop not found"})
+        r.fail(Finding("R-LOOPTRY", "R-LOOPTRY|rules.Rule.test|node-loop", f"{f.file}:{cast_loop.lineno}",
+                       "the casts must be attempted inside a loop over the selected (node, concrete path) pairs", []))
+        return r
     names = [t.id for t in ast.walk(cast_loop.target) if isinstance(t, ast.Name)]
     call = next((n for n in ast.walk(cast_loop) if isinstance(n, ast.Call) and isinstance(n.func, ast.Name) and n.func.id in names), None)
     inst = {"cast call": norm(call) if call else None}
@@ -735,10 +987,11 @@ def rule_looptry(ctx):
     guard = _enclosing(call, ast.If)
     inst = {"guard": norm(guard.test) if guard else None}
     r.instances.append(inst)
-    if guard is not None and norm(guard.test).startswith("isinstance(datum, ") and any(p is cast_loop for p in _parents(guard)):
+    nodevar = _target_names(node_loop.target)[0]
+    if guard is not None and norm(guard.test).startswith(f"isinstance({nodevar}, ") and any(p is cast_loop for p in _parents(guard)):
         r.ok()
     else:
-        r.fail(Finding("R-LOOPTRY", "R-LOOPTRY|rules.Rule.test|guard", f"{f.file}:{call.lineno}", "a cast applies only to a node whose type is the cast's source type (`isinstance(datum, <key>)`)", []))
+        r.fail(Finding("R-LOOPTRY", "R-LOOPTRY|rules.Rule.test|guard", f"{f.file}:{call.lineno}", f"a cast applies only to a node whose type is the cast's source type (`isinstance({nodevar}, <key>)`)", []))
     sd = next((n for n in ast.walk(node_loop) if isinstance(n, ast.Call) and isinstance(n.func, ast.Name) and n.func.id == "set_datum"), None)
     inst = {"write-back": norm(sd) if sd else None}
     r.instances.append(inst)
@@ -748,11 +1001,12 @@ def rule_looptry(ctx):
             tgt = norm(p.targets[0])
             break
     loopvars = [t.id for t in ast.walk(node_loop.target) if isinstance(t, ast.Name)]
-    if sd is not None and len(sd.args) == 3 and norm(sd.args[0]) == "data_copy" and norm(sd.args[2]) == tgt and norm(sd.args[1]) == loopvars[-1] and tgt not in loopvars:
+    copyvars = {norm(x.args[1]) for x in ast.walk(f.node) if isinstance(x, ast.Call) and norm(x.func) == "RuleTest" and len(x.args) == 2}
+    if sd is not None and len(sd.args) == 3 and norm(sd.args[0]) in copyvars and norm(sd.args[2]) == tgt and norm(sd.args[1]) == loopvars[-1] and tgt not in loopvars:
         r.ok()
     else:
         r.fail(Finding("R-LOOPTRY", "R-LOOPTRY|rules.Rule.test|write-back", f"{f.file}:{(sd or call).lineno}",
-                       f"the value written back must be the result of the cast (`{tgt}`), into data_copy, at the node's own concrete path (`{loopvars[-1] if loopvars else '?'}`)", []))
+                       f"the value written back must be the result of the cast (`{tgt}`), into the copy the rule test judges ({sorted(copyvars)}), at the node's own concrete path (`{loopvars[-1] if loopvars else '?'}`)", []))
     return r
 
 
@@ -848,6 +1102,24 @@ SIMPLIFY_GUARDS = {
 }
 
 
+def _canon_part(prog, func, var):
+    alias = local_alias_map(func)
+
+    def c(e):
+        import copy as _c
+        e2 = _c.deepcopy(e)
+
+        class Sub(ast.NodeTransformer):
+            def visit_Name(self, n):
+                if n.id in alias and n.id != var and isinstance(n.ctx, ast.Load) and n.id not in ("is_single_cond",):
+                    return _c.deepcopy(alias[n.id])
+                return n
+        e2 = Sub().visit(e2)
+        txt = canon(e2, {var: "part"})
+        return txt.replace("not part.condition.flatten()[1]", "is_single_cond")
+    return c
+
+
 def rule_guarded(ctx):
     prog = ctx.prog
     r = RuleResult("R-GUARDED", floor=4)
@@ -855,69 +1127,65 @@ def rule_guarded(ctx):
     loop = next((n for n in ast.walk(f.node) if isinstance(n, ast.For)), None)
     if loop is None:
         raise AnalysisError("DataPath.simplify: loop over parts not found")
-    var = loop.target.id if isinstance(loop.target, ast.Name) else "part"
+    var = _target_names(loop.target)[-1]
+    cf = _canon_part(prog, f, var)
     sites = [n for n in ast.walk(loop) if isinstance(n, ast.Subscript) and isinstance(n.slice, ast.Constant) and n.slice.value == "value" and norm(n.value).endswith(".callable.kwargs")]
-    for s in sites:
-        iff = _enclosing(s, ast.If)
-        # the branch whose body holds the read
-        conj = set()
-        node = iff
-        while node is not None:
-            in_body = any(s in list(ast.walk(b)) for b in node.body)
-            if in_body:
-                t = node.test
-                vals = t.values if isinstance(t, ast.BoolOp) and isinstance(t.op, ast.And) else [t]
-                conj |= {canon(v, {var: "part"}) for v in vals}
-                break
-            node = node.orelse[0] if len(node.orelse) == 1 and isinstance(node.orelse[0], ast.If) and any(s in list(ast.walk(b)) for b in ast.walk(node.orelse[0])) else None
-        kind = "map_or_list" if "list_condition" in norm(s) or "map_condition" in norm(s) else "map"
+    for sb in sites:
+        facts = facts_at(prog, f, sb, cf)
+        kind = "map_or_list" if "list_condition" in norm(sb) or "map_condition" in norm(sb) else "map"
         need = SIMPLIFY_GUARDS[kind]
-        # `is_single_cond` may be spelled inline
-        conj_n = {c.replace("not part.condition.flatten()[1]", "is_single_cond") for c in conj}
-        inst = {"site": f"simplify: {norm(s)}", "guards": sorted(conj_n)}
+        inst = {"site": f"simplify: {norm(sb)}", "guards": sorted(facts)}
         r.instances.append(inst)
-        missing = sorted(need - conj_n)
+        missing = sorted(need - facts)
         if not missing:
             r.ok()
         else:
-            r.fail(Finding("R-GUARDED", f"R-GUARDED|datapath.DataPath.simplify|{kind}", f"{f.file}:{s.lineno}",
-                           f"`{norm(s)}` is emitted as a primitive part without the guard(s) {missing}: a part with a different kind of condition "
+            r.fail(Finding("R-GUARDED", f"R-GUARDED|datapath.DataPath.simplify|{kind}", f"{f.file}:{sb.lineno}",
+                           f"`{norm(sb)}` is emitted as a primitive part without the guard(s) {missing}: a part with a different kind of condition "
                            f"(e.g. Key.length.equal_to(3), a non-equality or combined condition) would be serialised as the bare value of its argument", []))
     if len(sites) < 2:
         raise AnalysisError("DataPath.simplify: the two `...callable.kwargs['value']` emission sites not found")
+    # sweep: every other read of a condition's 'value' argument in the package must sit under a guard on the callable's name
+    for g in prog.all_functions():
+        if g.qualname == f.qualname:
+            continue
+        for n in ast.walk(g.node):
+            if isinstance(n, ast.Subscript) and isinstance(n.slice, ast.Constant) and n.slice.value == "value" and norm(n.value).endswith("callable.kwargs"):
+                recv = norm(n.value)[: -len(".kwargs")]
+                guards = sorted(facts_at(prog, g, n, canon))
+                inst = {"site": f"{g.qualname}: {norm(n)}", "guards": guards}
+                r.instances.append(inst)
+                if any(f"{recv}.name ==" in t or f"{recv}.name in" in t for t in guards):
+                    r.ok()
+                else:
+                    r.fail(Finding("R-GUARDED", f"R-GUARDED|{g.qualname}|{norm(n)}", f"{g.file}:{n.lineno}",
+                                   f"`{norm(n)}` in {g.qualname} reads the 'value' argument of a condition without checking which callable the condition uses: "
+                                   f"conditions built by other constructors (e.g. the index/key pair of a map-or-list part, in_range) have no such argument (KeyError)", []))
     # to_part_specs: primitives only via simplify(); bare type only for a null condition and no label; otherwise raise
     g = prog.func("datapath.DataPath.to_part_specs")
-    txt = ast.unparse(g.node)
-    direct = [n for n in ast.walk(g.node) if isinstance(n, ast.Subscript) and isinstance(n.slice, ast.Constant) and n.slice.value == "value" and "kwargs" in norm(n.value)]
-    inst = {"to_part_specs reads kwargs['value'] directly": [norm(d) for d in direct]}
-    r.instances.append(inst)
-    if direct:
-        r.fail(Finding("R-GUARDED", "R-GUARDED|datapath.DataPath.to_part_specs|direct", f"{g.file}:{direct[0].lineno}",
-                       f"`{norm(direct[0])}` takes the 'value' argument of whatever condition the part carries, without the guards simplify() applies", []))
-    else:
-        r.ok()
+    lp = next((n for n in ast.walk(g.node) if isinstance(n, ast.For)), None)
+    names = _target_names(lp.target) if lp is not None else []
+    pvar = names[0] if names else "part"
+    cg = _canon_part(prog, g, pvar)
     bare = [n for n in ast.walk(g.node) if isinstance(n, ast.Dict) and any(isinstance(k, ast.Constant) and k.value == "type" for k in n.keys)]
     for b in bare:
-        conds = set()
-        for p in _parents(b):
-            if isinstance(p, ast.If):
-                t = p.test
-                vals = t.values if isinstance(t, ast.BoolOp) and isinstance(t.op, ast.And) else [t]
-                conds |= {norm(v) for v in vals}
-        inst = {"bare spec": norm(b), "under": sorted(conds)}
+        facts = facts_at(prog, g, b, cg)
+        inst = {"bare spec": norm(b), "under": sorted(facts)}
         r.instances.append(inst)
-        if any("condition == cnds.NullCondition()" in c for c in conds) and ("part.label is not None" in txt or "label" in " ".join(conds)):
+        null_ok = any(x in facts for x in ("part.condition == cnds.NullCondition()", "cnds.NullCondition() == part.condition", "part.condition.is_null"))
+        label_ok = any(x in facts for x in ("part.label is None", "not part.label"))
+        if null_ok and label_ok:
             r.ok()
         else:
-            r.fail(Finding("R-GUARDED", f"R-GUARDED|datapath.DataPath.to_part_specs|{norm(b)}", f"{g.file}:{b.lineno}",
-                           f"the bare spec `{norm(b)}` may only be emitted for a part whose condition is null and which has no label (guards found: {sorted(conds)})", []))
-    raises = [n for n in ast.walk(g.node) if isinstance(n, ast.Raise)]
-    inst = {"refusals": len(raises)}
+            r.fail(Finding("R-GUARDED", f"R-GUARDED|datapath.DataPath.to_part_specs|bare-type", f"{g.file}:{b.lineno}",
+                           f"the bare spec `{norm(b)}` may only be emitted for a part whose condition is null and which has no label (facts established: {sorted(facts)})", []))
+    prim = [n for n in ast.walk(g.node) if isinstance(n, ast.Subscript) and isinstance(n.slice, ast.Constant) and n.slice.value == "value" and "kwargs" in norm(n.value)]
+    inst = {"to_part_specs uses simplify()": "self.simplify()" in ast.unparse(g.node), "refusals": len([n for n in ast.walk(g.node) if isinstance(n, ast.Raise)])}
     r.instances.append(inst)
-    if raises:
-        r.ok()
-    else:
+    if not inst["refusals"]:
         r.fail(Finding("R-GUARDED", "R-GUARDED|datapath.DataPath.to_part_specs|no-raise", f"{g.file}:{g.node.lineno}", "to_part_specs must refuse (raise) parts it cannot represent", []))
+    else:
+        r.ok()
     return r
 
 
